@@ -599,6 +599,27 @@ func (o *osim) initLifecycle(nc *v1.NodeClaim, upTo string) {
 	o.deliver("Node", nodeName, "")
 }
 
+// vanishLifecycle: the provider has no capacity (ICE); the real lifecycle controller deletes the un-launched replacement
+// and finalizes it - the way a replacement really disappears.
+func (o *osim) vanishLifecycle(nc *v1.NodeClaim) {
+	ctx := injection.WithControllerName(o.ctx, "nodeclaim.lifecycle")
+	for i := 0; i < 6; i++ {
+		cur := &v1.NodeClaim{ObjectMeta: metav1.ObjectMeta{Name: nc.Name}}
+		if !o.w.Get(cur) {
+			break
+		}
+		if cur.Status.ProviderID == "" && cur.DeletionTimestamp.IsZero() {
+			o.w.Prov.CreateOutcomes = []string{"ICE"}
+		}
+		o.w.Emit(trace.M{"e": "Begin", "controller": "nodeclaim.lifecycle", "object": nc.Name})
+		errS, panicked := o.guarded(nil, func() error { _, e := o.lc.Reconcile(ctx, cur); return e })
+		o.w.Emit(trace.M{"e": "End", "controller": "nodeclaim.lifecycle", "object": nc.Name, "err": short(errS), "panic": panicked,
+			"started": false, "cands": []trace.M{}, "repl": []string{}, "outcome": "-"})
+		o.w.Prov.CreateOutcomes = nil
+	}
+	o.deliver("NodeClaim", nc.Name, "")
+}
+
 func (o *osim) replStep(st OStep) {
 	nc, ok := o.replClaim(st)
 	if !ok {
@@ -619,6 +640,10 @@ func (o *osim) replStep(st OStep) {
 			o.initEnv(nc, st.Lag)
 		}
 	case "ReplVanish":
+		if st.Via == "lifecycle" {
+			o.vanishLifecycle(nc)
+			return
+		}
 		nodeName := nc.Status.NodeName
 		o.w.EnvRemove(nc, "ReplVanish")
 		if nodeName != "" {
@@ -773,6 +798,9 @@ func RunOrchOne(sc *OScenario, tw *trace.Writer) (err error) {
 	tw.Begin(trace.M{"module": "Orchestration", "name": sc.Name, "tags": tags, "t0": sc.T0,
 		"timeoutSec": int((&kdisruption.Queue{}).GetMaxRetryDuration() / time.Second), "scenarioJson": string(raw)})
 	w.Sink = func(m trace.M) {
+		if m["e"] == "World" {
+			return // whole-store snapshots of the shared builder: the orchestration trace spec folds the store from Api / Env events
+		}
 		if m["e"] == "Api" && m["err"] == "-" {
 			o.writes++
 			if m["verb"] == "create" && m["kind"] == "NodeClaim" && m["actor"] == "disruption" {
